@@ -135,7 +135,9 @@ Section Den.
             let port_syms : scope :=
                 if is_root then []
                 else fold_left (fun acc p => match p_size p with
-                                             | ESym s => if String.eqb s (hash_name (p_name p)) || mem s (keys acc) then acc
+                                             | ESym s => if String.eqb s (hash_name (p_name p)) || mem s (keys acc)
+                                                            || mem s (keys locals)   (* a declared local variable is not redefined by a port *)
+                                                         then acc
                                                          else (acc ++ [(s, opt_join (lookup (p_name p) W))])%list
                                              | _ => acc
                                              end) (sort_ports non_out) [] in
@@ -266,9 +268,9 @@ Section Den.
                             match p_size p with
                             | ESym s =>
                                 if String.eqb s (hash_name (p_name p)) then st
-                                else if mem s ips
-                                then (* the symbol is a declared parameter of the routine: the port does not define it, the
-                                        incoming size has to agree with the parameter's value *)
+                                else if mem s ips || mem s (keys locals)
+                                then (* the symbol is a declared parameter or local variable of the routine: the port does not
+                                        define it, the incoming size has to agree with its value *)
                                      (fst st, (snd st ++ [int_pair w (eval_in rho sc1 false (ESym s))])%list)
                                 else match lookup s (fst st) with
                                      | None => ((fst st ++ [(s, p_name p)])%list, snd st)       (* first port with this symbol: defines it *)
